@@ -267,6 +267,8 @@ def run(rep, ctx):
         _c04w.factors_times_cell(rep, M, "R18.9")
         _c04w.both_directions_alike(rep, M, "R18.9")
         _c04w.image_labels_add(rep, M, "R18.9")
+        _c04w.correction_orientation(rep, M, "R18.9")
+        _c04w.span_through_minus_neighbour(rep, M, "R18.9")
     rep.rule("R18.10", "no function keeps results in module-level state or functools caches (answers do not depend on what the process analysed before)")
     with rep.guard("R18.10"):
         from .. import symrules as _SRms
